@@ -124,6 +124,37 @@ def case_payload(case):
     return b"" if h == "-" else bytes.fromhex(h)
 
 
+def natural_mode(data):
+    if all(c in DIGITS for c in data):
+        return 0
+    if all(c in ALNUM for c in data):
+        return 1
+    return 2
+
+
+def outcome_oracle(ctx, name, cases, impl):
+    """Ok / Err class and version of a build, decided by the ISO capacity formula for the mode and level IN EFFECT
+    (forced, else automatic mode; forced, else level Q)"""
+    tr = []
+    for c, o in zip(cases, impl):
+        p = c.split()
+        data = case_payload(c)
+        m = int(p[1]) if p[1] != "-" else natural_mode(data)
+        e = int(p[2]) if p[2] != "-" else 2
+        fv = None if p[3] == "-" else int(p[3])
+
+        def exp(got, o=o, fv=fv, e=e, m=m):
+            if got == "NONE":
+                return o == "ERR1"
+            mv = int(got)
+            want_v = mv if fv is None else fv
+            if fv is not None and fv < mv:
+                return o == "ERR2"
+            return o.startswith("OK %d %d " % (want_v, e)) and o.split()[4] == str(m)
+        tr.append(("ominver %d %d %d" % (m, e, len(data)), exp, {"case": c[:300]}))
+    ctx.oracle(name, tr)
+
+
 def finding_key(f):
     return hashlib.sha256(json.dumps(f.get("input", f), sort_keys=True, default=str).encode()).hexdigest()[:16]
 
@@ -447,9 +478,21 @@ def run_C04(ctx):
     for m, data in [(1, b"0123456789"), (2, b"0123456789"), (2, b"HELLO WORLD"), (1, b"")]:
         for e in range(4):
             cases.append(build_case(m, e, None, None, data))
+    # no level given: level Q is in effect, also when the data would only fit a weaker level
+    cp = caps(ctx)
+    if cp:
+        for m in range(3):
+            hiq, hil = cp[m][2][39], cp[m][0][39]
+            for n in [hiq, hiq + 1, (hiq + hil) // 2, hil, hil + 1]:
+                cases.append(build_case(m, None, None, None, payload(ctx.rng, m, n)))
+                cases.append(build_case(None, None, None, None, payload(ctx.rng, m, n, "random")))
+        for _ in range(10 if ctx.quick else 200):
+            m = ctx.rng.randrange(3)
+            cases.append(build_case(None, None, None, None, payload(ctx.rng, m, ctx.rng.randrange(0, 300), "ascii" if m == 2 else "random")))
     cases += gen_builds(ctx, 150 if ctx.quick else 3000)
     impl, _ = ctx.correspond("build", cases)
     symbol_oracles(ctx, cases, impl, ["format", "fields", "decode"])
+    outcome_oracle(ctx, "outcome_level_in_effect", cases, impl)
     fm = ["fmt %d %d %d" % (v, e, k) for v in ([0, 6, 39] if ctx.quick else range(40)) for e in range(4) for k in range(8)]
     ctx.correspond("format", fm)
 
@@ -628,7 +671,25 @@ def run_C07(ctx):
         if len(q) == 2 and q[0] == "OK":
             tr.append(("oec %s %d" % (p[1], k), q[1][-2 * k:], {"case": c[:600]}))
     ctx.oracle("poly_rem", tr)
-    # degree mapping for all 160 pairs against Table 9 is a Coq theorem (degree_is_table9); here: the dump
+    # the EC codewords actually emitted for every (version, level): structure() on all 160 layouts, blocks read back by the
+    # Table 9 de-interleaver must have zero syndromes and carry the data
+    sc = []
+    for v in range(40):
+        for e in range(4):
+            g = T["ecc_groups"][e][v]
+            d = max(T["data_codewords"][e][v], g[0] * g[1] + g[2] * g[3])
+            tot = T["max_bytes"][v]
+            sc.append("struct %d %d %s" % (e, v, hexs(bytes(rng.randrange(256) for _ in range(d)) + bytes(tot - d))))
+    simpl, _ = ctx.correspond("structure", sc)
+    tr = []
+    for c, o in zip(sc, simpl):
+        p = c.split()
+        q = o.split()
+        if len(q) == 3 and q[0] == "OK":
+            tr.append(("orsstream %s %s %s %s" % (p[2], p[1], q[1], p[3]), "1", {"case": c[:400]}))
+        else:
+            ctx.direct_failure("structure", {"case": c[:400]}, o[:60])
+    ctx.oracle("emitted_ec_is_remainder", tr)
 
 
 # ------------------------------------------------------------------------------------------ C08
@@ -1165,11 +1226,12 @@ def rand_colour_string(rng):
 def run_C17(ctx):
     rng = ctx.rng
     cases = []
-    contents = ["x", "HELLO WORLD", "12345", "https://example.com/", "", "\u00e9\u20ac", "a" * 200, "A" * 5000]
+    contents = ["x", "HELLO WORLD", "12345", "https://example.com/", "", "\u00e9\u20ac", "a" * 200, "A" * 5000,
+                "7" * 2954, "7" * 3993, "7" * 3994, "A" * 2420, "A" * 2421, "b" * 1663, "b" * 1664]
     for c in contents:
         cases.append("wasmqr " + hexs(c))
     for i in range(200 if ctx.quick else 5000):
-        content = rng.choice(contents[:7]) if rng.random() < 0.9 else "9" * rng.randrange(7000, 7200)
+        content = rng.choice(contents[:7]) if rng.random() < 0.9 else "9" * rng.choice([2954, 3500, 3993, 3994, 7100])
         ops = []
         for _ in range(rng.randrange(0, 8)):
             k = rng.randrange(11)
@@ -1197,6 +1259,9 @@ def run_C17(ctx):
             else:
                 ops.append("version=%d" % rng.choice([0, 1, 5, 12, 39]))
         cases.append("wasm %s %s" % (hexs(content), " ".join(ops)))
+    for content, e in [("7" * 7089, 0), ("7" * 7090, 0), ("A" * 4296, 0), ("A" * 3000, 0), ("7" * 5000, 1), ("b" * 2953, 0), ("b" * 2954, 0)]:
+        cases.append("wasm %s ecl=%d" % (hexs(content), e))
+        cases.append("wasm %s ecl=%d margin=2 shape=1" % (hexs(content), e))
     # every single-setter history with malformed values
     for col in ["", "#", "zz", "\u00e9", "\u20aca", "#12345", "+1+2+3", "#gg0000", "#aabbcc", "#aabbccdd", "aabbccdde", "\U0001F680",
                 "#a\u00e90000", "#00000\u20ac", "a\u00e9", "#\u00e9\u00e9\u00e9"]:
@@ -1384,6 +1449,7 @@ def run_C19(ctx):
     os.makedirs(wd, exist_ok=True)
     classes = ["ok", "overwrite", "missingdir", "isdir", "devfull", "procfs", "longname", "nul"]
     cases = ["file %s %s %s %s" % (k, cl, wd, sz) for k in ("svg", "png") for cl in classes for sz in ("small", "large")]
+    cases += ["file svg fsize %s %s" % (wd, sz) for sz in ("small", "large")]   # both SVG documents exceed the 1 KiB limit
     if not ctx.quick:
         cases = cases * 5
     impl, _ = ctx.correspond("file", cases)
